@@ -41,15 +41,42 @@ def corpus(tier, seed):
         items.append((('nl', nl.to_json(), style), 3, 'cb'))
         if nl.state_gates():
             items.append((('nl', nl.to_json(), style), 3, f'cycle{1 + j % 3}'))
+        items.append((('nl', nl.to_json(), style), 3, 'plain+opts'))          # memory reuse + stripped forks (the statement covers every configuration)
         if tier == 'thorough':
             for st in ('bench', 'verilog', 'lean'):
                 if st != style: items.append((('nl', nl.to_json(), st), 9, 'plain'))
+    for nl in netlist.g2_shapes() + layered_shapes():
+        for style in ('verilog', 'bench'):
+            items.append((('nl', nl.to_json(), style), 3, 'plain+opts'))
+            if nl.state_gates(): items.append((('nl', nl.to_json(), style), 3, 'cycle2+opts'))
     for r in netlist.G4:
         items.append((r, 9, 'plain'))
+        items.append((r, 3, 'plain+opts'))
         items.append((r, 3, 'cycle2'))
     if tier == 'thorough':
         for r in netlist.G4_BIG: items.append((r, 8, 'plain'))
     return items
+
+
+def layered_shapes():
+    """deeper layered circuits in which early signals are observed by flip-flops / outputs and also feed gates (memory-reuse pressure)"""
+    S = []
+    for depth in (4, 6):
+        gates, prev = [], ['a', 'b', 'c']
+        ports = [('a', 'in'), ('b', 'in'), ('c', 'in')]
+        for lv in range(depth):
+            cur = []
+            for k in range(3):
+                o = f's{lv}_{k}'
+                gates.append((f'g{lv}_{k}', ['NAND2', 'XOR2', 'NOR2'][(lv + k) % 3], [o], [prev[k], prev[(k + 1) % 3]]))
+                cur.append(o)
+            if lv in (0, 1): gates.append((f'ff{lv}', 'DFF', [f'q{lv}', None], [cur[0]]))
+            if lv == 1: ports.append((cur[1], 'out'))
+            prev = cur
+        ports += [(prev[0], 'out'), (prev[2], 'out')]
+        gates.append(('gq', 'AND2', ['zq'], ['q0', 'q1'])); ports.append(('zq', 'out'))
+        S.append(netlist.NL(f'layered{depth}', ports, gates))
+    return S
 
 
 def _oracle_cycles(c, assign, k, zero, ones, cut=False):
@@ -68,7 +95,9 @@ def _oracle_cycles(c, assign, k, zero, ones, cut=False):
 
 def run_symbolic(c, sims, variant):
     """-> (sim, ins, list of (what, slot, byte, sim_term, ref_term, mask))"""
-    s = LogicSim(c, sims, m=2)
+    opt = variant.endswith('+opts')
+    variant = variant.replace('+opts', '')
+    s = LogicSim(c, sims, m=2, c_reuse=opt, strip_forks=opt)
     ins = lanes.symbolize(s)
     nbytes = s.c.shape[-1]
     k = int(variant[5:]) if variant.startswith('cycle') else 0
@@ -100,7 +129,9 @@ def run_symbolic(c, sims, variant):
 def concrete(recipe, sims, variant, in_bytes):
     """Replay on the real code with real uint8 arrays.  in_bytes: {(slot, plane, byte): int}.  -> list of mismatches."""
     c = netlist.from_recipe(recipe)
-    s = LogicSim(c, sims, m=2)
+    opt = variant.endswith('+opts')
+    variant = variant.replace('+opts', '')
+    s = LogicSim(c, sims, m=2, c_reuse=opt, strip_forks=opt)
     for (i, p, b), v in in_bytes.items(): s.s[0, i, p, b] = v
     k = int(variant[5:]) if variant.startswith('cycle') else 0
     if k: s.cycle(k)
